@@ -44,8 +44,8 @@ def daysInYearOverlap (s1 s2 y : Int) : Int :=
 /-- ISDA 2006 §4.16(b) ACT/ACT (ISDA), `start ≤ end`: for each calendar year touched by the period,
 the days of the period in that year divided by that year's length. -/
 def actActISDA (s1 y1 s2 y2 : Int) : Rat :=
-  (List.range ((y2 - y1).toNat + 1)).foldl
-    (fun acc (i : Nat) => acc + ((daysInYearOverlap s1 s2 (y1 + i) : Int) : Rat) / (yearLen (y1 + i) : Int)) 0
+  ((List.range ((y2 - y1).toNat + 1)).map
+    (fun (i : Nat) => ((daysInYearOverlap s1 s2 (y1 + i) : Int) : Rat) / (yearLen (y1 + i) : Int))).sum
 
 /-- ICMA Rule 251 ACT/ACT: days / (frequency × days in the coupon period). -/
 def actActICMA (s1 s2 s3 : Int) (freq : Rat) : Rat := ((s2 - s1 : Int) : Rat) / (freq * ((s3 - s1 : Int) : Rat))
